@@ -17,6 +17,7 @@ package main
 
 import (
 	"fmt"
+	"math"
 	"os"
 	"runtime"
 	"runtime/debug"
@@ -211,6 +212,16 @@ func run(r *lib.Run) {
 		warnLow(fmt.Sprintf("reports_%s_type_1_history", d), 2*q)
 		warnLow(fmt.Sprintf("reports_%s_type_2_state", d), 1*q)
 	}
+	spreadMu.Lock()
+	r.Count("rounds_with_covered_candidates_beyond_the_8_closest", spreadRounds)
+	r.Count("rounds_random_part_reached_beyond_the_8_closest", spreadPicked)
+	r.Extra("log10_probability_of_the_rounds_that_stayed_within_the_8_closest_under_uniform_choice", spreadLogPNone/math.Ln10)
+	if spreadRounds > 0 && spreadPicked == 0 && spreadLogPNone < math.Log(1e-12) {
+		r.Violation("random-part-never-reaches-beyond-8-closest-covered",
+			fmt.Sprintf("in %d gossip rounds with covered candidates beyond the 8 closest, not one such candidate was ever selected; under a uniform choice of 4 among the other covered nodes the probability of that is below 1e%.0f", spreadRounds, spreadLogPNone/math.Ln10),
+			map[string]any{"rounds_with_candidates_beyond_the_8_closest": spreadRounds, "log10_probability_under_uniform_choice": spreadLogPNone / math.Ln10})
+	}
+	spreadMu.Unlock()
 	if u := r.Counter("rounds_undecided"); u*20 > r.Counter("rounds")+1 {
 		r.Warn("%d rounds undecided", u)
 	}
